@@ -77,6 +77,9 @@ PATHS = sorted(set(SEGMENTS + ["/".join(c) for c in itertools.product(_SHORT_SEG
                    ["/".join(c) for c in itertools.product(_SHORT_SEGMENTS[:6], repeat=3)] +
                    # a variable (resolved later, e.g. after replication) inside the FILE part of a reference
                    ["out-%(replica)s.txt", "%(dir)s/a", "d/e-%(v)s", "f.%(ext)s"]))
+# legal file parts that are not in normal form (a reference names what was written, not its normal form); only used as
+# the file part of references to components / folders, never as (part of) an absolute producer path
+NONNORMAL = ["d/", "a//b", "d/./e.txt", "d/../e", "./f", "outputs/"]
 
 _VARIANTS = ["same", "same", "same", "lower", "upper", "cap", "digit", "dotted", "dashed", "prefixed", "fresh", "fresh"]
 _SUFFIX = {"digit": ["0", "1", "12"], "dotted": [".x", ".v2", ".1", ".txt"], "dashed": ["-1", "_b", "-x"]}
@@ -209,6 +212,8 @@ def build_world(d: _D, max_refs=4, for_validate=False):
             if for_validate or d.i(3) > 0:
                 s, producer = d.pick(comps)
                 stage = None if (s == ctx and d.i(2)) else s
+                if not for_validate and d.i(8) == 0:
+                    path = d.pick(NONNORMAL)
             else:
                 producer = d.near(pool + appnames + mtops + [c[1] for c in comps])
                 stage = d.pick([None, None, None, 0, 1, 2, 3, 10, 12])
